@@ -247,3 +247,12 @@ MODULES = [
     ('pico8.music.music', 'pico8/music/music.py', MUSIC),
     ('pico8.lua.lua', 'pico8/lua/lua.py', P8SCII),
 ]
+
+# further kernel/table specs live in gen/kernels_*.py, each exposing MODULES (same format)
+import glob as _glob
+import importlib as _importlib
+import os as _os
+for _f in sorted(_glob.glob(_os.path.join(_os.path.dirname(_os.path.abspath(__file__)), 'kernels_*.py'))):
+    _m = _importlib.import_module(_os.path.basename(_f)[:-3])
+    MODULES.extend(_m.MODULES)
+
